@@ -29,7 +29,8 @@ Sz(n, inFn) ==
     \cup {[k |-> "while", c |-> c, b |-> x] : c \in Conds, x \in Sz(n-1, inFn)}
     \cup {[k |-> "for", c |-> v[2], init |-> v[1], post |-> v[3], b |-> x] :
             v \in {<<"ok", "o", "ok">>, <<"fault", "o", "ok">>, <<"ok", "fault", "ok">>, <<"ok", "o", "fault">>}, x \in Sz(n-1, inFn)}
-    \cup {[k |-> "forin", kind |-> "arr", n |-> m, two |-> FALSE, b |-> x] : m \in {2, 0 - 1}, x \in Sz(n-1, inFn)}
+    \cup {[k |-> "forin", kind |-> v[1], n |-> v[2], two |-> v[3], b |-> x] :
+            v \in {<<"arr", 2, FALSE>>, <<"arr", 0 - 1, FALSE>>, <<"obj", 2, TRUE>>, <<"str", 2, TRUE>>, <<"ustr", 2, FALSE>>}, x \in Sz(n-1, inFn)}
     \cup (IF inFn THEN {} ELSE {[k |-> "callstmt", f |-> 0, args |-> <<>>, fb |-> x] : x \in Sz(n-1, TRUE)})
     \cup {[k |-> "matchstmt", subj |-> s, bind |-> "z", b |-> x] : s \in {One, FX}, x \in Sz(n-1, inFn)}
     \cup (IF n = 2 THEN {[k |-> "set", n |-> "mv", e |-> [k |-> "match", subj |-> s, bind |-> "z", body |-> b]] :
